@@ -205,6 +205,7 @@ func (c *cluster) handleChanges(key string, kvs []KV) {
 				})
 			}
 		}
+		c.values[key] = m
 	}
 	c.lock.Unlock()
 
